@@ -6,4 +6,9 @@ KindsLeaky == {"node", "leaky"}
 MutAll == {"clone", "asroot", "drop", "link", "unlink"}
 MutDrop == {"drop"}
 MutDropLink == {"drop", "link"}
+
+(* Heap.tla's paced policy step-refines Pacing.tla (whose invariant is proved for unbounded sizes by Apalache and TLAPS):
+   every allocation is Pacing's AllocAtomic with size 1 and whatever the collection reclaimed; everything else stutters. *)
+PH == INSTANCE Pacing WITH lastSize <- (IF next = 1 THEN 0 ELSE 1), pendingCollect <- FALSE
+RefinesPacing == [][PH!AllocAtomic(1, bytes + 1 - bytes')]_<<bytes, threshold, afterLast, next>>
 ==============================================================================
